@@ -11,6 +11,7 @@ import vlib  # noqa: E402
 FAMILY = {
     "C20": "fam_ref",
     "C19": "fam_pack",
+    "C05": "fam_ingest",
     "C01": "fam_copy", "C02": "fam_copy", "C03": "fam_copy", "C04": "fam_copy",
 }
 LEVEL = "model_checking"
